@@ -1,6 +1,6 @@
 module verif/harness
 
-go 1.21
+go 1.22
 
 require github.com/goghcrow/go-co v0.0.0
 
